@@ -65,8 +65,9 @@ TARGETS = {
     'C18': [('psiaudio/util.py', ['edge_rising', 'edge_falling', 'epochs', 'smooth_epochs', 'debounce_epochs', 'ts'])],
 }
 # further checks to run for a target (a mutant of C04's code is also C06's business, ...)
-ALSO = {'C02': ['C06'], 'C04': ['C06'], 'C05': ['C06'], 'C14': ['C15'], 'C01': ['C09'], 'C09': ['C01'], 'C17': ['C11'],
-        'C07': ['C08']}
+ALSO = {'C02': ['C06'], 'C04': ['C06'], 'C05': ['C06'], 'C14': ['C15'], 'C01': ['C09', 'C10'], 'C09': ['C01', 'C10'],
+        'C17': ['C11'], 'C07': ['C08'], 'C03': ['C04'], 'C13': ['C12'], 'C10': ['C01', 'C09'], 'C08': ['C01']}
+# run 1 triage: (C03) InterleavedFIFOSignalQueue.requeue belongs to C04; (C13) Events is also what event_rate consumes
 
 SWAP_CMP = {ast.Lt: ast.LtE, ast.LtE: ast.Lt, ast.Gt: ast.GtE, ast.GtE: ast.Gt, ast.Eq: ast.NotEq, ast.NotEq: ast.Eq}
 
